@@ -40,6 +40,14 @@ func runC04(c *CaseCtx) {
 	}
 	defer run.Close()
 	g := &Gen{R: r, U: u, Cfg: cfg, KV: true, List: ds, Set: ds, ZSet: ds, TTL: true, MaxOps: 3}
+	// merge variant (RAM modes): Merge + reopen at random points. Lists and positional sorted-set removals are left
+	// out there: what Merge does to them is the recorded finding of C15/C16, not a bucket-isolation question.
+	mergeVariant := cfg.Mode != 2 && c.Case%3 == 1
+	if mergeVariant {
+		g.List, g.NoZPop = false, true
+		class += "-merge"
+		run.Class = class
+	}
 	ntx := 20 + r.Intn(tier(c.Tier, 30, 80))
 	perBucket := func(lines []string) map[string][]string {
 		m := map[string][]string{}
@@ -53,6 +61,67 @@ func runC04(c *CaseCtx) {
 		}
 		return m
 	}
+	// pairs (b1,k1) / (b2,k2) of the universe whose bucket+key concatenations coincide
+	type bk struct {
+		b string
+		k []byte
+	}
+	var collide [][2]bk
+	for _, b1 := range buckets {
+		for _, b2 := range buckets {
+			if b1 >= b2 {
+				continue
+			}
+			for _, k1 := range u.KVKeys {
+				for _, k2 := range u.KVKeys {
+					if b1+string(k1) == b2+string(k2) {
+						collide = append(collide, [2]bk{{b1, k1}, {b2, k2}})
+					}
+				}
+			}
+		}
+	}
+	// crossTx: ONE transaction that writes several buckets: the same keys / members in all of them, and when the
+	// universe has them, two pairs whose bucket+key strings coincide. Only the model oracle applies to it.
+	ctr := 0
+	crossTx := func() TxSpec {
+		t := TxSpec{Mode: "update"}
+		val := func() []byte { ctr++; return []byte(fmt.Sprintf("x%d", ctr)) }
+		if len(collide) > 0 && r.Intn(3) != 0 {
+			p := collide[r.Intn(len(collide))]
+			i := r.Intn(2)
+			t.Ops = append(t.Ops, Op{K: "Put", B: p[i].b, Key: p[i].k, Val: val()}, Op{K: "Put", B: p[1-i].b, Key: p[1-i].k, Val: val()})
+			c.Stat("colliding_pairs_written_in_one_tx", 1)
+		}
+		k := g.pick(u.KVKeys)
+		for _, b := range buckets {
+			switch x := r.Intn(6); {
+			case x < 3:
+				t.Ops = append(t.Ops, Op{K: "Put", B: b, Key: k, Val: val()})
+			case x == 3:
+				t.Ops = append(t.Ops, Op{K: "Delete", B: b, Key: k})
+			}
+		}
+		if ds {
+			sk, m := g.pick(u.SetKeys), g.member()
+			zk := g.zKey()
+			for _, b := range buckets {
+				if r.Intn(2) == 0 {
+					t.Ops = append(t.Ops, Op{K: "SAdd", B: b, Key: sk, Vals: [][]byte{m}})
+				}
+				if r.Intn(3) == 0 {
+					t.Ops = append(t.Ops, Op{K: "ZAdd", B: b, Key: zk, F: float64(r.Intn(3)), Val: val()})
+				}
+				if !mergeVariant && r.Intn(3) == 0 {
+					t.Ops = append(t.Ops, Op{K: "RPush", B: b, Key: g.pick(u.ListKeys), Vals: [][]byte{val()}})
+				}
+			}
+		}
+		if len(t.Ops) == 0 {
+			t.Ops = append(t.Ops, Op{K: "Put", B: buckets[0], Key: k, Val: val()})
+		}
+		return t
+	}
 	prev, err := obsReal(run.DB, u)
 	if err != nil {
 		c.Violate("obs-view-error", class, err.Error())
@@ -60,6 +129,16 @@ func runC04(c *CaseCtx) {
 	}
 	for i := 0; i < ntx && !run.Dead && !c.Violated(); i++ {
 		g.M = run.M
+		if r.Intn(4) == 0 {
+			t := crossTx()
+			run.Tx(t, false)
+			c.Stat("cross_bucket_transactions", 1)
+			if !run.CheckObs("after-cross-bucket-tx") {
+				break
+			}
+			prev, _ = obsReal(run.DB, u)
+			continue
+		}
 		// a transaction that writes exactly one bucket
 		b := buckets[r.Intn(len(buckets))]
 		saved := u.Buckets
@@ -93,6 +172,22 @@ func runC04(c *CaseCtx) {
 			g.M = run.M
 			run.Tx(g.ReadTx(6), false)
 		}
+		if mergeVariant && r.Intn(8) == 0 && run.Files() >= 2 {
+			c.Log("merge (%d files)", run.Files())
+			merr, p := mergeNoPanic(run)
+			if p != "" {
+				c.Violate("panic:Merge:"+p, class, "Merge panicked: "+p)
+				break
+			}
+			if merr == nil {
+				c.Stat("merges_succeeded", 1)
+			}
+			if !run.CheckObs("after-merge") || !run.Reopen() || !run.CheckObs("after-merge-reopen") {
+				break
+			}
+			prev, _ = obsReal(run.DB, u)
+			continue
+		}
 		if r.Intn(15) == 0 {
 			if !run.Reopen() || !run.CheckObs("after-reopen") {
 				break
@@ -122,8 +217,8 @@ func init() {
 		ID: "C04", Level: "exploration",
 		NCases: func(t string) int { return tier(t, 300, 10000) },
 		Run:    runC04,
-		Rule: "case = seeded history over 2-4 buckets whose names are chosen adversarially ('', a, ab, abc, b, 'a|', bc, k: prefixes of each other and of keys, bucket+key concatenations that coincide such as (a,bc)/(ab,c)) with the same keys in every bucket; KV in all three index modes, lists/sets/sorted sets in KeyVal mode; every write transaction touches exactly one bucket; " +
-			"oracle 1 (non-interference, self-comparison): the full observation of every other bucket is unchanged by the transaction; oracle 2: the full observation equals the reference model (same key, different values per bucket); sparse mode is split into a class with adversarial names and one with unrelated names; non-trivial = history rotated; distinct by history hash",
+		Rule: "case = seeded history over 2-4 buckets whose names are chosen adversarially ('', a, ab, abc, b, 'a|', bc, k: prefixes of each other and of keys, bucket+key concatenations that coincide such as (a,bc)/(ab,c)) with the same keys in every bucket; KV in all three index modes, lists/sets/sorted sets in KeyVal mode; three of four write transactions touch exactly one bucket, the fourth writes the same keys/members to several buckets at once, including two pairs whose bucket+key strings coincide; a third of the RAM-mode histories also call Merge and reopen (no lists / positional sorted-set removals there: C15/C16 findings); " +
+			"oracle 1 (non-interference, self-comparison): the full observation of every other bucket is unchanged by a single-bucket transaction; oracle 2: the full observation equals the reference model (same key, different values per bucket); sparse mode is split into a class with adversarial names and one with unrelated names; non-trivial = history rotated; distinct by history hash",
 		Assumptions: []string{"bucket names are valid file names in sparse mode (no path separators)"},
 		Floor: func(t string, a map[string]int64) string {
 			if a["noninterference_checks"] < 2000 {
